@@ -40,10 +40,13 @@ def main():
     env = dict(os.environ, PYTHONPATH=mut, PYTHONDONTWRITEBYTECODE="1")
     rc, out = sh(f"{PY} -m pytest -q -p no:cacheprovider -n 16 2>&1 | tail -1", cwd=mut, env=env)
     rec["tests_with_change"] = out.strip()
-    shutil.copy(os.path.join(src, "demo.py"), os.path.join(scratch, "demo.py"))
-    rc_m, out_m = sh(f"{PY} {scratch}/demo.py", cwd=mut, env=env, timeout=600)
+    # demos may locate the tree relative to their own path (<tree>/MUTANTS/m<i>/demo.py): keep that layout in both copies
+    for d in (mut, clean):
+        os.makedirs(os.path.join(d, "MUTANTS", "mx"), exist_ok=True)
+        shutil.copy(os.path.join(src, "demo.py"), os.path.join(d, "MUTANTS", "mx", "demo.py"))
+    rc_m, out_m = sh(f"{PY} MUTANTS/mx/demo.py", cwd=mut, env=env, timeout=900)
     env_c = dict(os.environ, PYTHONPATH=clean, PYTHONDONTWRITEBYTECODE="1")
-    rc_c, out_c = sh(f"{PY} {scratch}/demo.py", cwd=clean, env=env_c, timeout=600)
+    rc_c, out_c = sh(f"{PY} MUTANTS/mx/demo.py", cwd=clean, env=env_c, timeout=900)
     rec["demo_with_change_exit"] = rc_m
     rec["demo_without_change_exit"] = rc_c
     rec["demo_with_change_tail"] = out_m[-400:]
